@@ -7,6 +7,7 @@ Families (all enumerated completely, see DESIGN.md C01):
   colls    ordered pairs (thorough: triples) of 12 short contigs, as list / tuple / generator / bare sequence
   layout   motifs embedded behind / before pads of 0..257 letters (position-keyed shortcuts)
   selfoverlap every string up to length 13 (16) over the letters of prefixes that overlap themselves in several ways (AAA, ATATA, ACACA...)
+  allbytes every byte value 0..255 at every position of a sequence holding one occurrence on either strand (4 specs incl. k=32)
   long     occurrences straddling positions around 2^10 .. 2^16 (2^20) in long sequences
   histories every sequence of valid / failing calls in one thread (state kept between calls)
 Each case: 4 sequence types x {SetAccumulator, ArrayAccumulator (k<=8), default} on the real calc_signature,
@@ -55,6 +56,8 @@ def plan(tier, seed):
 		tasks.append(('t_histories', dict(ki=ki, depth=3 if tier == 'quick' else 4)))
 	for part in range(4):
 		tasks.append(('t_long', dict(part=part, nparts=4, tier=tier)))
+	for lo in range(0, 256, 64):
+		tasks.append(('t_allbytes', dict(lo=lo, hi=lo + 64)))
 	for si in range(len(SELF_OVERLAP_SPECS)):
 		tasks.append(('t_selfoverlap', dict(si=si, L=13 if tier == 'quick' else 16)))
 	return tasks
@@ -188,6 +191,23 @@ def t_everyk(klo, khi):
 			if got.tolist() != R.ref_signature(11, b'ATGAC', [s]) or str(got.dtype) != 'uint32':
 				sh.violation('signature', dict(k=11, prefix=b'ATGAC', seqs=[s], type='bytes', acc='array'), R.ref_signature(11, b'ATGAC', [s]), got.tolist())
 	sh.sample(dict(family='everyk', k=k, prefix=p.decode(), seq=c))
+	return sh
+
+
+def t_allbytes(lo, hi):
+	"""Every byte value 0..255 substituted at every position of a sequence holding one occurrence (prefix, k-mer, pads), on either strand:
+	the occurrence survives only for the eight letters ACGTacgt (and then changes the k-mer / moves the match accordingly)."""
+	sh = Shard()
+	specs = [(3, b'AT', b'GCA'), (4, b'C', b'ATTG'), (32, b'ATGAC', (b'TGCA' * 8)), (9, b'GA', b'CCATTGACG')]
+	for k, p, km in specs:
+		for base in (b'G' + p + km + b'C', p + km, R.ref_revcomp(b'G' + p + km + b'C')):
+			for pos in range(len(base)):
+				for b in range(lo, hi):
+					s = base[:pos] + bytes([b]) + base[pos + 1:]
+					check_case(sh, k, p, [s], variants='light')
+					if b >= 128:
+						sh.count('high_bit_byte_cases')
+	sh.sample(dict(family='allbytes', lo=lo, hi=hi, last_seq=s))
 	return sh
 
 
